@@ -2,6 +2,7 @@
 //! replay files, evidence and known-findings handling.
 
 pub mod driver;
+pub mod e2;
 pub mod entropy;
 pub mod framed;
 pub mod rng;
@@ -172,6 +173,10 @@ pub trait Property: Send + Sync + 'static {
     /// Per-run wall-clock watchdog.
     fn wall_cap_s(&self) -> u64 {
         20
+    }
+    /// Upper bound on parallel workers (Some(1) when the subject has process-global state).
+    fn max_jobs(&self) -> Option<usize> {
+        None
     }
 }
 
